@@ -13,7 +13,7 @@ from ..model import glob_match
 from ..resp import Err, Closed, Timeout
 from ..util import Result
 
-MOVES = ["none", "add-after", "add-before", "add-burst", "delete-after", "delete-before", "delete-random", "other-iteration", "mixed"]
+MOVES = ["none", "add-after", "add-before", "add-burst", "delete-after", "delete-before", "delete-random", "delete-at-cursor", "other-iteration", "mixed"]
 COUNTS = [None, 1, 2, 3, 7, 10, 100, 1000, 1001, 9223372036854775807]
 PATTERNS = [None, None, b"*", b"k*", b"*1*", b"k?[0-9]*", b"s:*", b"v:[a-m]*", b"nomatch*", b"\\k*", b"k\xff*"]
 
@@ -131,7 +131,29 @@ class Scan:
                 self.vol.add(nm)
                 self.ever.add(nm)
                 cmds.append(self.add_cmd(nm))
-        elif move in ("delete-after", "delete-before", "delete-random"):
+        elif move == "delete-at-cursor" and getattr(self, "pos", None) and getattr(self, "last_returned", None) in self.pos:
+            # aimed at whatever the cursor encodes: the element that would be visited next and / or the one returned
+            # last (positions learned from a quiet iteration beforehand); only volatile elements are ever deleted, so
+            # the oracle is unchanged - a cursor that is resolved by looking one of those two elements up, instead of
+            # by position, skips or repeats a neighbour that was there all along
+            i = self.pos[self.last_returned]
+            which = rng.choice(["next", "next", "last", "both", "next-run"])
+            victims = []
+            if which in ("next", "both", "next-run"):
+                j = i + 1
+                while j < len(self.order) and self.order[j] in self.vol and (which == "next-run" or not victims):
+                    victims.append(self.order[j])
+                    j += 1
+            if which in ("last", "both") and self.last_returned in self.vol:
+                victims.append(self.last_returned)
+            for nm in victims:
+                self.vol.discard(nm)
+                cmds.append(self.del_cmd(nm))
+            self.res.count("cursor_aimed_moves")
+            self.res.count("cursor_aimed_deletions_" + which.replace("-", "_"), len(victims))
+        elif move in ("delete-after", "delete-before", "delete-random", "delete-at-cursor"):
+            if move == "delete-at-cursor":
+                move = "delete-random"          # order not learned (or the last element is new): any volatile element
             if move != "delete-random" and not last:
                 cands = []
             elif move == "delete-random":
@@ -166,6 +188,22 @@ class Scan:
         if typ is not None:
             opts += [b"TYPE", typ]
         trace = []
+        self.order, self.pos, self.last_returned = [], {}, None
+        if move in ("delete-at-cursor", "mixed") and total:
+            # quiet learning pass: the order in which a plain iteration visits the elements that exist now
+            lc, lcur, lcalls = (b"1" if total <= 400 else b"100"), b"0", 0
+            while lcalls <= total + 50:
+                r = self.c.cmd(*([kind.encode()] + ([] if kind == "SCAN" else [self.container]) + [lcur, b"COUNT", lc]))
+                lcalls += 1
+                if not (isinstance(r, list) and len(r) == 2 and isinstance(r[0], bytes) and isinstance(r[1], list)):
+                    break
+                self.order.extend(r[1][::2] if kind in ("HSCAN", "ZSCAN") else r[1])
+                lcur = r[0]
+                if lcur == b"0":
+                    break
+            self.pos = {nm: i for i, nm in enumerate(self.order)}
+            if len(self.pos) != len(self.order):
+                self.order, self.pos = [], {}        # repeats in a quiet pass: no usable order
         # one iteration in seven is driven from inside scripts (redis.call of the same command with the same options)
         via_script = self.rng.random() < 0.15 and (count is None or count <= 10 ** 6)
         self.via_script = via_script
@@ -200,6 +238,7 @@ class Scan:
                 seen.extend(page)
             if page:
                 last = max(page) if kind not in ("HSCAN", "ZSCAN") else max(page[::2])
+                self.last_returned = page[-1] if kind not in ("HSCAN", "ZSCAN") else page[-2]
             if cursor == b"0":
                 break
             if calls <= adversary_calls:
@@ -298,7 +337,8 @@ def run(tier):
                        "full cursor iterations of SCAN/HSCAN/SSCAN/ZSCAN over 0-3000 names (shared prefixes, binary bytes), "
                        "COUNT in {default,1,2,3,7,10,100,1000,1001,2^63-1}, MATCH globs, TYPE filters; a stable subset is "
                        "never touched while an adversary (none / add before, after, burst / delete before, after, random / "
-                       "mixed) modifies other elements between calls; oracle: stable elements passing the filters all "
+                       "delete at the cursor: the element visited next or returned last in a learned visiting order / "
+                       "another iteration / mixed) modifies other elements between calls; oracle: stable elements passing the filters all "
                        "returned, nothing phantom or unfiltered, HSCAN/ZSCAN values are ones the element had, cursor 0 "
                        "within a bound once the adversary stops; cell = (command, adversary move, size, count class, "
                        "filters, outcome)", t0,
